@@ -40,7 +40,8 @@ RESERVED = {"end": "end_", "at": "at_", "in": "in_", "fun": "fun_", "match": "ma
             "Type": "Type_", "Set": "Set_", "Prop": "Prop_", "forall": "forall_", "exists": "exists_",
             "as": "as_", "using": "using_", "where": "where_", "left": "left_", "right": "right_",
             "gap": "gap_", "cur": "cur_", "rest": "rest_", "st": "st_", "en": "en_", "pl": "pl_",
-            "interval": "interval_"}
+            "interval": "interval_", "ivl": "ivl_", "out": "out_", "run_for": "run_for_", "fstart": "fstart_",
+            "fend": "fend_", "ozd": "ozd_", "is_none": "is_none_", "set_span": "set_span_", "mkI": "mkI_"}
 
 COQ_TYPE = {"Z": "Z", "OZ": "option Z", "B": "bool", "IVL": "ivl", "OIVL": "option ivl",
             "LIST": "list ivl", "U": "unit"}
@@ -203,6 +204,24 @@ class Tr:
             raise Unsupported("binary operator")
         if isinstance(e, ast.Call):
             return self.call(e, env)
+        if isinstance(e, ast.GeneratorExp):
+            # (elt for x in stream if cond)  ->  map (fun x => elt) (filter (fun x => cond) stream)
+            if len(e.generators) != 1:
+                raise Unsupported("nested generator expression")
+            g = e.generators[0]
+            if g.is_async or not isinstance(g.target, ast.Name):
+                raise Unsupported("generator expression target")
+            src, _ = self.expr(g.iter, env, "LIST")
+            inner = dict(env)
+            inner[g.target.id] = "IVL"
+            x = cname(g.target.id)
+            for cond in g.ifs:
+                c, _ = self.expr(cond, inner, "B")
+                src = f"(filter (fun {x} => {c}) {src})"
+            if isinstance(e.elt, ast.Name) and e.elt.id == g.target.id:
+                return src, "LIST"
+            elt, _ = self.expr(e.elt, inner, "IVL")
+            return f"(map (fun {x} => {elt}) {src})", "LIST"
         raise Unsupported(f"expression {type(e).__name__}: {ast.unparse(e)}")
 
     def call(self, e, env):
@@ -294,6 +313,9 @@ class Tr:
                     raise Unsupported("annotated assignment")
                 name, value, decl = s.target.id, s.value, ann_type(s.annotation)
             want = decl or self.declared.get(name)
+            if want is None and isinstance(value, ast.Constant) and value.value is None and name in env:
+                # `x = None` for a variable that already has a type: the option form of that type
+                want = {"Z": "OZ", "IVL": "OIVL"}.get(env[name], env[name])
             t, ty = self.expr(value, env, want)
             if ty == "NONE":
                 raise Unsupported(f"type of {name} = None unknown (annotate it)")
@@ -427,10 +449,8 @@ class Tr:
             env_item = dict(env_loop)
             env_item[loop.target.id] = self.item_type
             body_t = self.block(loop.body, env_item, fin_body, 3)
-            for v in assigned - set(state):
-                for sub in ast.walk(ast.Module(body=epi, type_ignores=[])):
-                    if isinstance(sub, ast.Name) and sub.id == v:
-                        raise Unsupported(f"loop-local variable {v} used after the loop")
+            # (variables assigned only inside the loop body are not in scope after the loop: a use
+            #  there is an unknown name, i.e. Unsupported)
             epi_t = self.block(epi, env_loop, fin_epi, 3)
             nil = f"@nil {self.out_type}"
             return (f"run_for\n    (fun {unpack()} {cname(loop.target.id)} =>\n      let out := {nil} in\n{body_t})\n"
